@@ -1,4 +1,5 @@
 import ComposeVerif.Lemmas.NameDotenv
+import ComposeVerif.Lemmas.NameSplit
 import ComposeVerif.Lemmas.NameExamples
 import ComposeVerif.Gen.NameFacts
 import ComposeVerif.Neg.C17
@@ -299,6 +300,59 @@ theorem project_dir_is_workdir (w : World) (o : PO) (d : Nat) (hw : o.workDir = 
     projDir w o = (dirNode w d).name := by
   simp [projDir, projDirId, hw]
 
+/-! ## `strings.Split` on `COMPOSE_FILE`, `strings.Cut` on `KEY=VALUE` entries -/
+
+/-- `strings.Split` loses nothing: joining the pieces with the separator gives the string back — for ANY
+    separator (multi-character `COMPOSE_PATH_SEPARATOR` included) and any value (empty entries included) -/
+theorem splitOn_join_inv (sep s : Str) : SplitLemmas.joinSep sep (splitOn sep s) = s :=
+  SplitLemmas.splitOn_join_inv sep s
+
+/-- leftmost-first, non-overlapping: the first piece ends at the FIRST occurrence of the separator and the rest
+    of the value is split the same way (this is what makes `a:::b` with separator `::` give `a`, `:b`) -/
+theorem splitOn_first (sep : Str) (hsep : sep ≠ []) (s : Str) (i : Nat) (h : indexOf sep s = some i) :
+    splitOn sep s = s.take i :: splitOn sep (s.drop (i + sep.length)) :=
+  SplitLemmas.splitOn_first sep hsep s i h
+
+/-- what `indexOf … = some i` means: the separator occurs at position `i` -/
+theorem indexOf_some_spec (pat s : Str) (i : Nat) (h : indexOf pat s = some i) :
+    i + pat.length ≤ s.length ∧ s = s.take i ++ pat ++ s.drop (i + pat.length) :=
+  SplitLemmas.indexOf_some_spec pat s i h
+
+/-- a value without the separator is one entry -/
+theorem splitOn_no_sep (sep s : Str) (h : indexOf sep s = none) : splitOn sep s = [s] :=
+  SplitLemmas.splitOn_no_sep sep s h
+
+-- empty entries and multi-character separators, as `strings.Split` has them
+example : splitOn ":".toList "a::b".toList = strs ["a", "", "b"] := by decide
+example : splitOn ":".toList "x:".toList = strs ["x", ""] := by decide
+example : splitOn ":".toList "".toList = strs [""] := by decide
+example : splitOn "::".toList "a:::b".toList = strs ["a", ":b"] := by decide
+example : splitOn "ab".toList "xabab".toList = strs ["x", "", ""] := by decide
+
+/-- `strings.Cut(s, "=")` not found: exactly the entries without `=` -/
+theorem splitEq_none_iff (s : Str) : splitEq s = none ↔ '=' ∉ s := SplitLemmas.splitEq_none_iff s
+
+/-- the cut is at the FIRST `=`: the key has none, the value is everything after it (further `=` included) -/
+theorem splitEq_some_iff (s k v : Str) : splitEq s = some (k, v) ↔ s = k ++ '=' :: v ∧ '=' ∉ k :=
+  SplitLemmas.splitEq_some_iff s k v
+
+/-- `utils.GetAsEqualsMap`, duplicate rule: the LAST entry for a key wins; an entry without `=` changes nothing -/
+theorem asEqualsMap_last_wins (l : List Str) (s : Str) (k : Str) :
+    (asEqualsMap (l ++ [s])).get k =
+      match splitEq s with
+      | some (k', v) => if k = k' then some v else (asEqualsMap l).get k
+      | none => (asEqualsMap l).get k := SplitLemmas.asEqualsMap_last_wins l s k
+
+/-- a final `K=V` entry binds `K` to `V` whatever came before (`V` may contain `=`, `K` may be empty) -/
+theorem asEqualsMap_entry (l : List Str) (k v : Str) (hk : '=' ∉ k) :
+    (asEqualsMap (l ++ [k ++ '=' :: v])).get k = some v := SplitLemmas.asEqualsMap_entry l k v hk
+
+theorem asEqualsMap_no_eq_dropped (l : List Str) (s : Str) (hs : '=' ∉ s) :
+    asEqualsMap (l ++ [s]) = asEqualsMap l := SplitLemmas.asEqualsMap_no_eq_dropped l s hs
+
+example : (asEqualsMap (strs ["K=a", "novalue", "K=b=c", "=x"])).get "K".toList = some "b=c".toList := by decide
+example : (asEqualsMap (strs ["K=a", "novalue", "K=b=c", "=x"])).get [] = some "x".toList := by decide
+
 /-! ## the project environment -/
 
 /-- env_any_option_order: after ANY sequence of option calls the project environment is, as an ordered list of
@@ -578,6 +632,10 @@ theorem dotenv_refs_above (above earlier out : Env) (k : Str) (t : List Template
 
 /-! ## non-vacuity: concrete worlds on which the hypotheses of the theorems hold -/
 
+-- the examples below replace the env-file scanner by the grammar evaluator (`parseFile_renderSimple`) before `decide`;
+-- here the scanner itself runs in the kernel on a one-line file (two lines already take minutes) and gives the same map
+example : (parseFile (fun _ => none) (renderSimple [("A".toList, "b".toList)])).toOption = some [("A".toList, "b".toList)] := by decide
+example : (toErr (Dotenv.evalLines (fun _ => none) ([("A".toList, "b".toList)].map simpleLine))).toOption = some [("A".toList, "b".toList)] := by decide
 -- explicit name over COMPOSE_PROJECT_NAME over file over directory
 example : nameOf (run exW (.withName "ex".toList :: exDoc)) = some "ex" := by eval_run; decide
 example : nameOf (run exW exDoc) = some "os" := by eval_run; decide
